@@ -42,6 +42,27 @@ type tDecoder struct {
 	// for bool, int8, int16, int32, int64, float64
 	// for string, we only use it for (*sliceHeader).Data, not for []string, coz it contains pointer
 	s span
+
+	// quota limits the total size claimed by the element counts of all lists, sets and maps
+	// of one message, in wire bytes (count * minWireSize). Every count is checked against the
+	// bytes remaining at its own nesting level only, and memory is allocated for the full count
+	// before elements are decoded: nested containers each claiming the whole rest of the input
+	// would allocate depth * len(input) * sizeof(element). In a well-formed message the claims
+	// can't add up to more than about twice the message size, see setQuota.
+	quota int
+}
+
+// setQuota must be called before decoding a message of n bytes.
+// Claims of containers at the same nesting level are disjoint, and elements that hold nested
+// containers are larger than the minimum, so the sum over all levels stays below 2n.
+func (d *tDecoder) setQuota(n int) {
+	d.quota = 8*n + 1024
+}
+
+// claim returns false if l elements of at least sz bytes each exceed what is left of the quota.
+func (d *tDecoder) claim(l, sz int) bool {
+	d.quota -= l * sz
+	return d.quota >= 0
 }
 
 func (d *tDecoder) Malloc(n, align int, abiType uintptr) unsafe.Pointer {
@@ -306,7 +327,8 @@ func (d *tDecoder) decodeType(t *tType, b []byte, p unsafe.Pointer, maxdepth int
 		// reject corrupted lengths before allocating the map: every entry needs
 		// at least minWireSize[key]+minWireSize[value] bytes, so l entries can
 		// not fit if they exceed the remaining buffer. likely data is broken.
-		if remain := len(b) - mapHeaderLen; l > remain/(int(minWireSize[kt.WT])+int(minWireSize[vt.WT])) {
+		if remain := len(b) - mapHeaderLen; l > remain/(int(minWireSize[kt.WT])+int(minWireSize[vt.WT])) ||
+			!d.claim(l, int(minWireSize[kt.WT])+int(minWireSize[vt.WT])) {
 			return mapHeaderLen, newSizeExceedsBufferException(l, remain)
 		}
 
@@ -426,7 +448,7 @@ func (d *tDecoder) decodeType(t *tType, b []byte, p unsafe.Pointer, maxdepth int
 		// reject corrupted lengths before allocating the slice: every element
 		// needs at least minWireSize[et] bytes, so l elements can not fit if
 		// they exceed the remaining buffer. likely the data is broken.
-		if remain := len(b) - i; l > remain/int(minWireSize[et.WT]) {
+		if remain := len(b) - i; l > remain/int(minWireSize[et.WT]) || !d.claim(l, int(minWireSize[et.WT])) {
 			return i, newSizeExceedsBufferException(l, remain)
 		}
 
